@@ -126,6 +126,12 @@ def steady_state_transport_solver(
         logger.info("Setting both equal.")
         nlx, nly = nxe, nye
 
+    if (nxe - nlx) % 2 or (nye - nly) % 2:
+        raise ValueError(
+            "modes must have the same parity as the number of grid cells "
+            "including the halo."
+        )
+
     # Deltas for truncated Fourier transform
     dlx, dly = (nxe - nlx) // 2, (nye - nly) // 2
 
